@@ -34,8 +34,8 @@ ASSUMPTIONS = [
     "a URL component mixing valid %XX escapes with stray '%' may be encoded either way (keep valid escapes / encode every '%')",
 ]
 REQUIRED_PROBES = {
-    "quick": ["rejected_zero_bytes", "accepted_exact", "entry:conn", "entry:pool", "entry:pm", "entry:h2", "h2_rejected", "h2_accepted", "obs_fold_roundtrip", "target_percent_encoded", "body_checked"],
-    "thorough": ["rejected_zero_bytes", "accepted_exact", "entry:conn", "entry:pool", "entry:pm", "entry:h2", "h2_rejected", "h2_accepted", "obs_fold_roundtrip", "target_percent_encoded", "body_checked"],
+    "quick": ["rejected_zero_bytes", "accepted_exact", "entry:conn", "entry:pool", "entry:pm", "entry:h2", "h2_rejected", "h2_accepted", "obs_fold_roundtrip", "target_percent_encoded", "body_checked", "follow_up_clean_after_rejection", "follow_up_clean"],
+    "thorough": ["rejected_zero_bytes", "accepted_exact", "entry:conn", "entry:pool", "entry:pm", "entry:h2", "h2_rejected", "h2_accepted", "obs_fold_roundtrip", "target_percent_encoded", "body_checked", "follow_up_clean_after_rejection", "follow_up_clean"],
 }
 
 HOSTILE = [
@@ -97,7 +97,7 @@ def gen(rng, k):
         seen = set()
         headers = [h for h in headers if not (h[0] in seen or seen.add(h[0]))]
     sc = {"property": ID, "entry": entry, "method": method, "path": path, "headers": headers, "container": cont, "body": body, "hostile": nh}
-    if entry == "h2":
+    if entry in ("h2", "pool", "pm"):
         sc["second"] = rng.random() < 0.5
     return sc
 
@@ -136,6 +136,7 @@ def run(sc: dict) -> Result:
     hdrs = _mk_headers(sc)
     body = sc["body"]
     method, path = sc["method"], sc["path"]
+    holder = {"obj": None}
     with H.RunEnv(), H.quiet_warnings(), w:
         err = None
         try:
@@ -148,13 +149,11 @@ def run(sc: dict) -> Result:
                 r.read()
                 c.close()
             elif entry == "pool":
-                p = urllib3.HTTPConnectionPool("h.test", 80, timeout=3.0)
+                p = holder["obj"] = urllib3.HTTPConnectionPool("h.test", 80, timeout=3.0)
                 p.urlopen(method, path, body=body, headers=hdrs, retries=False)
-                p.close()
             else:
-                pm = urllib3.PoolManager(timeout=3.0)
+                pm = holder["obj"] = urllib3.PoolManager(timeout=3.0)
                 pm.request(method, "http://h.test" + path, body=body, headers=hdrs, retries=False)
-                pm.clear()
         except (W.SimHang, W.StepLimit) as e:
             err = e
             res.bad("hang", str(e))
@@ -163,6 +162,40 @@ def run(sc: dict) -> Result:
             H.strip_tb(e)
         sent = b"".join(bytes(s.sent) for s in w.sockets)
         n_socks_written = sum(1 for s in w.sockets if s.sent)
+        # ---- a benign follow-up through the same pool / manager: whatever the first call left behind (a half-assembled request
+        #      in a recycled connection object, say) must not reach the wire with it
+        obj = holder["obj"]
+        if obj is not None and sc.get("second") and not isinstance(err, (W.SimHang, W.StepLimit)):
+            mark = {s_.sid: len(s_.sent) for s_ in w.sockets}
+            err2 = None
+            try:
+                if entry == "pool":
+                    obj.urlopen("GET", "/follow", headers={"X-Second": "2"}, retries=False)
+                else:
+                    obj.request("GET", "http://h.test/follow", headers={"X-Second": "2"}, retries=False)
+            except (W.SimHang, W.StepLimit) as e:
+                res.bad("hang", str(e))
+                err2 = e
+            except Exception as e:
+                H.strip_tb(e)
+                err2 = e
+            delta = b"".join(bytes(s_.sent[mark.get(s_.sid, 0):]) for s_ in w.sockets)
+            reqs2, left2, perr2 = HW.parse_requests(delta)
+            if perr2 or left2 or len(reqs2) != 1:
+                res.bad("follow_up_not_exactly_one_request", f"after {('the rejected' if err is not None else 'the accepted')} call, a plain GET /follow wrote: {delta[:200]!r} ({err2!r:.80})")
+            else:
+                q2 = reqs2[0]
+                names = {n.lower() for n, _ in q2["fields"]}
+                if q2["method"] != b"GET" or q2["target"] != b"/follow" or not names <= {b"host", b"accept-encoding", b"user-agent", b"x-second"} or b"x-second" not in names:
+                    res.bad("follow_up_carries_foreign_lines", f"GET /follow went out as {q2['method']!r} {q2['target']!r} with fields {q2['fields']!r}")
+                else:
+                    res.probes["follow_up_clean_after_rejection" if err is not None else "follow_up_clean"] += 1
+        try:
+            if obj is not None:
+                obj.close() if entry == "pool" else obj.clear()
+        except Exception:
+            pass
+        obj = holder["obj"] = None
         if err is not None and not isinstance(err, (W.SimHang, W.StepLimit)):
             reqs, left, perr = HW.parse_requests(sent)
             if sent:
